@@ -278,6 +278,18 @@ func c10LitShapes(r *rand.Rand, n int) []string {
 		"0.1e1", "10e-1", "12345678.90", "1.10", "100.000", "1e00", "1e01", "1e+01", "1E-01", "99999999999999999999.99999999999999999999",
 	}
 	out := append([]string{}, fixed...)
+	// arbitrary size and precision: literals longer than any fixed-size scratch buffer (64, 128, 4096, 8192 bytes)
+	digits := func(k int) string {
+		var sb strings.Builder
+		sb.WriteByte(byte('1' + r.IntN(9)))
+		for j := 1; j < k; j++ {
+			sb.WriteByte(byte('0' + r.IntN(10)))
+		}
+		return sb.String()
+	}
+	for _, k := range []int{60, 63, 64, 65, 66, 100, 127, 128, 129, 255, 300, 1000, 4095, 4097, 8191, 8193, 20000} {
+		out = append(out, digits(k), "-"+digits(k), "0."+digits(k), digits(k/2)+"."+digits(k-k/2), digits(k)+"e"+fmt.Sprint(r.IntN(300)), "1."+digits(k)+"E-"+fmt.Sprint(1+r.IntN(300)), "-"+digits(3)+"."+digits(k)+"e+5")
+	}
 	for i := 0; i < n; i++ {
 		var sb strings.Builder
 		if r.IntN(3) == 0 {
